@@ -11,7 +11,7 @@ def hasKey (k : Key) (b : FBundle) : Bool := decide (keyOf b.primary = k)
 
 structure Proj where
   entry : Option Entry
-  seen : Option (Nat × Nat) → Bool
+  seen : Option (Nat × Option Nat) → Bool
   pending : List FBundle
   delivered : List FBundle
 
@@ -25,7 +25,13 @@ theorem tableWf_init : TableWf AState.init.table := by
   intro k e f h; simp [AState.init] at h
 
 @[simp] theorem norm_primary (b : FBundle) : (norm b).primary = b.primary := rfl
-@[simp] theorem keyOf_synth (f : FBundle) (d : Bytes) : keyOf (synth f d).primary = keyOf f.primary := rfl
+@[simp] theorem keyOf_updPrimary (crcFn : Nat → Bytes → Bytes) (p : Primary) :
+    keyOf (updPrimary crcFn p) = keyOf p := by
+  unfold updPrimary; split <;> rfl
+@[simp] theorem keyOf_synth (crcFn : Nat → Bytes → Bytes) (f : FBundle) (d : Bytes) :
+    keyOf (synth crcFn f d).primary = keyOf f.primary := by
+  show keyOf (updPrimary crcFn _) = _
+  rw [keyOf_updPrimary]; rfl
 
 theorem entryOf_first (k : Key) (cur : Option Entry) (b : FBundle) (hb : keyOf b.primary = k)
     (hw : ∀ e f, cur = some e → e.first = some f → keyOf f.primary = k) :
@@ -39,9 +45,10 @@ theorem entryOf_first (k : Key) (cur : Option Entry) (b : FBundle) (hb : keyOf b
     | none => simp at hf
     | some e => exact hw e f rfl hf
 
-theorem finish_first_key (k : Key) (e : Entry) (h : ∀ f, e.first = some f → keyOf f.primary = k) :
-    (∀ e' f, (finish e).1 = some e' → e'.first = some f → keyOf f.primary = k) ∧
-    (∀ rb, (finish e).2 = .cleared (some rb) → keyOf rb.primary = k) := by
+theorem finish_first_key (crcFn : Nat → Bytes → Bytes) (k : Key) (e : Entry)
+    (h : ∀ f, e.first = some f → keyOf f.primary = k) :
+    (∀ e' f, (finish crcFn e).1 = some e' → e'.first = some f → keyOf f.primary = k) ∧
+    (∀ rb, (finish crcFn e).2 = .cleared (some rb) → keyOf rb.primary = k) := by
   unfold finish
   split
   · split
@@ -55,33 +62,35 @@ theorem finish_first_key (k : Key) (e : Entry) (h : ∀ f, e.first = some f → 
   · refine ⟨fun e' f he hf => ?_, fun rb hr => by simp at hr⟩
     simp at he; subst he; exact h f hf
 
-theorem reasmEntry_first_key (k : Key) (cur : Option Entry) (b : FBundle) (hb : keyOf b.primary = k)
+theorem reasmEntry_first_key (crcFn : Nat → Bytes → Bytes) (k : Key) (cur : Option Entry) (b : FBundle)
+    (hb : keyOf b.primary = k)
     (hw : ∀ e f, cur = some e → e.first = some f → keyOf f.primary = k) :
-    (∀ e f, (reasmEntry cur b).1 = some e → e.first = some f → keyOf f.primary = k) ∧
-    (∀ rb, (reasmEntry cur b).2 = .cleared (some rb) → keyOf rb.primary = k) := by
+    (∀ e f, (reasmEntry crcFn cur b).1 = some e → e.first = some f → keyOf f.primary = k) ∧
+    (∀ rb, (reasmEntry crcFn cur b).2 = .cleared (some rb) → keyOf rb.primary = k) := by
   have h1 := entryOf_first k cur b hb hw
   unfold reasmEntry
   split
   · refine ⟨fun e f he hf => ?_, fun rb hr => by simp at hr⟩
     simp at he; subst he; exact h1 f hf
-  · exact finish_first_key k _ (fun f hf => h1 f hf)
+  · exact finish_first_key crcFn k _ (fun f hf => h1 f hf)
 
-theorem reassemble_frame (t : Table) (b : FBundle) (k : Key) (h : keyOf b.primary ≠ k) :
-    (reassemble t b).1 k = t k := by
+theorem reassemble_frame (crcFn : Nat → Bytes → Bytes) (t : Table) (b : FBundle) (k : Key)
+    (h : keyOf b.primary ≠ k) : (reassemble crcFn t b).1 k = t k := by
   simp [reassemble, Ne.symm h]
 
-theorem reassemble_wf (t : Table) (b : FBundle) (hw : TableWf t) : TableWf (reassemble t b).1 := by
+theorem reassemble_wf (crcFn : Nat → Bytes → Bytes) (t : Table) (b : FBundle) (hw : TableWf t) :
+    TableWf (reassemble crcFn t b).1 := by
   intro k e f he hf
   by_cases hk : k = keyOf b.primary
   · subst hk
     simp only [reassemble, if_true] at he
-    exact (reasmEntry_first_key _ (t (keyOf b.primary)) b rfl (fun e f h1 h2 => hw _ e f h1 h2)).1 e f he hf
+    exact (reasmEntry_first_key crcFn _ (t (keyOf b.primary)) b rfl (fun e f h1 h2 => hw _ e f h1 h2)).1 e f he hf
   · simp only [reassemble, hk, if_false] at he
     exact hw k e f he hf
 
-theorem reassemble_reinject_key (t : Table) (b rb : FBundle) (hw : TableWf t)
-    (h : (reassemble t b).2 = .cleared (some rb)) : keyOf rb.primary = keyOf b.primary :=
-  (reasmEntry_first_key _ (t (keyOf b.primary)) b rfl (fun e f h1 h2 => hw _ e f h1 h2)).2 rb h
+theorem reassemble_reinject_key (crcFn : Nat → Bytes → Bytes) (t : Table) (b rb : FBundle) (hw : TableWf t)
+    (h : (reassemble crcFn t b).2 = .cleared (some rb)) : keyOf rb.primary = keyOf b.primary :=
+  (reasmEntry_first_key crcFn _ (t (keyOf b.primary)) b rfl (fun e f h1 h2 => hw _ e f h1 h2)).2 rb h
 
 theorem recv_wf (cfg : RCfg) (s : AState) (b : FBundle) (hw : TableWf s.table) :
     TableWf (recvBundle cfg s b).table := by
@@ -94,25 +103,25 @@ theorem recv_wf (cfg : RCfg) (s : AState) (b : FBundle) (hw : TableWf s.table) :
   split; · exact hw
   split; · exact hw
   split
-  · exact reassemble_wf _ _ hw
-  · exact reassemble_wf _ _ hw
+  · exact reassemble_wf _ _ _ hw
+  · exact reassemble_wf _ _ _ hw
 
 /-- **Frame lemma.** A bundle of another key changes nothing of what concerns key `k`: table entry,
     seen identities, pending re-injections, deliveries. -/
 theorem recv_frame (cfg : RCfg) (s : AState) (b : FBundle) (k : Key) (hw : TableWf s.table)
     (hk : keyOf b.primary ≠ k) : proj k (recvBundle cfg s b) = proj k s := by
-  have hid : (fun f => ({ key := k, frag := f } : Ident) == identOf b.primary || s.seen { key := k, frag := f })
+  have hid : (fun f => ({ key := k, frag := f } : Ident) == identOf (norm b) || s.seen { key := k, frag := f })
       = fun f => s.seen { key := k, frag := f } := by
     funext f
-    have : (({ key := k, frag := f } : Ident) == identOf b.primary) = false := by
+    have : (({ key := k, frag := f } : Ident) == identOf (norm b)) = false := by
       simp only [beq_eq_false_iff_ne, ne_eq]
       intro e
       have := congrArg Ident.key e
-      simp only [identOf] at this
+      simp only [identOf, norm_primary] at this
       exact hk this.symm
     simp [this]
   have hkb : hasKey k (norm b) = false := by simp [hasKey, hk]
-  have hfr : (reassemble s.table (norm b)).1 k = s.table k := reassemble_frame _ _ _ hk
+  have hfr : (reassemble cfg.crcFn s.table (norm b)).1 k = s.table k := reassemble_frame _ _ _ _ hk
   unfold recvBundle
   split; · rfl
   simp only []
@@ -125,7 +134,7 @@ theorem recv_frame (cfg : RCfg) (s : AState) (b : FBundle) (k : Key) (hw : Table
   · simp [proj, hid, hkb]
   split
   · rename_i rb hr
-    have hrk := reassemble_reinject_key _ _ rb hw hr
+    have hrk := reassemble_reinject_key _ _ _ rb hw hr
     have : hasKey k rb = false := by simp [hasKey, hrk, hk]
     simp [proj, hid, this, hfr]
   · simp [proj, hid, hfr]
@@ -196,16 +205,19 @@ def reinjOf : RRes → List FBundle
   | .cleared (some rb) => [rb]
   | _ => []
 
+/-- the fragment part of a fragment's identity: (offset, length of its payload data) -/
+def fragId (b : FBundle) : Option (Nat × Option Nat) :=
+  some (b.primary.fragOff, (norm b).payload.map List.length)
+
 /-- effect of receiving an (unseen or seen) fragment `b` of key `k` on the projection -/
-def recvProj (pj : Proj) (b : FBundle) : Proj :=
-  let id : Option (Nat × Nat) := some (b.primary.fragOff, b.primary.totalLen)
-  if pj.seen id then pj
+def recvProj (crcFn : Nat → Bytes → Bytes) (pj : Proj) (b : FBundle) : Proj :=
+  if pj.seen (fragId b) then pj
   else
-    let r := reasmEntry pj.entry (norm b)
-    { entry := r.1, seen := fun f => f == id || pj.seen f,
+    let r := reasmEntry crcFn pj.entry (norm b)
+    { entry := r.1, seen := fun f => f == fragId b || pj.seen f,
       pending := pj.pending ++ reinjOf r.2, delivered := pj.delivered }
 
-theorem ident_beq_frag (k : Key) (f g : Option (Nat × Nat)) :
+theorem ident_beq_frag (k : Key) (f g : Option (Nat × Option Nat)) :
     (({ key := k, frag := f } : Ident) == (⟨k, g⟩ : Ident)) = (f == g) := by
   by_cases e : f = g
   · subst e; simp
@@ -217,21 +229,21 @@ theorem proj_recv_key' (cfg : RCfg) (s : AState) (b : FBundle) (hw : TableWf s.t
     (hn : numsOk b = true) (hc : cfg.crcOk (norm b) = true)
     (hs : (b.primary.src == cfg.nodeId) = false) (hd : cfg.deliver b.primary.dest = true)
     (hf : isFragment b.primary.flags = true) :
-    proj (keyOf b.primary) (recvBundle cfg s b) = recvProj (proj (keyOf b.primary) s) b := by
-  have hid : identOf b.primary = ⟨keyOf b.primary, some (b.primary.fragOff, b.primary.totalLen)⟩ := by
-    simp [identOf, hf]
+    proj (keyOf b.primary) (recvBundle cfg s b) = recvProj cfg.crcFn (proj (keyOf b.primary) s) b := by
+  have hid : identOf (norm b) = ⟨keyOf b.primary, fragId b⟩ := by
+    simp [identOf, hf, fragId]
   unfold recvBundle recvProj
   simp only [hn, hc, hs, hd, hf, norm_primary, hid, Bool.not_true, Bool.false_eq_true, if_false]
-  by_cases hsn : s.seen ⟨keyOf b.primary, some (b.primary.fragOff, b.primary.totalLen)⟩ = true
+  by_cases hsn : s.seen ⟨keyOf b.primary, fragId b⟩ = true
   · simp [proj, hsn]
-  · have hsn' : s.seen ⟨keyOf b.primary, some (b.primary.fragOff, b.primary.totalLen)⟩ = false := by simpa using hsn
-    have hre : reassemble s.table (norm b)
-        = (fun k' => if k' = keyOf b.primary then (reasmEntry (s.table (keyOf b.primary)) (norm b)).1 else s.table k',
-           (reasmEntry (s.table (keyOf b.primary)) (norm b)).2) := rfl
-    have hkey := (reasmEntry_first_key (keyOf b.primary) (s.table (keyOf b.primary)) (norm b) rfl
+  · have hsn' : s.seen ⟨keyOf b.primary, fragId b⟩ = false := by simpa using hsn
+    have hre : reassemble cfg.crcFn s.table (norm b)
+        = (fun k' => if k' = keyOf b.primary then (reasmEntry cfg.crcFn (s.table (keyOf b.primary)) (norm b)).1 else s.table k',
+           (reasmEntry cfg.crcFn (s.table (keyOf b.primary)) (norm b)).2) := rfl
+    have hkey := (reasmEntry_first_key cfg.crcFn (keyOf b.primary) (s.table (keyOf b.primary)) (norm b) rfl
       (fun e f h1 h2 => hw _ e f h1 h2)).2
     simp only [proj, hsn', Bool.false_eq_true, if_false, hre]
-    cases hr : (reasmEntry (s.table (keyOf b.primary)) (norm b)).2 with
+    cases hr : (reasmEntry cfg.crcFn (s.table (keyOf b.primary)) (norm b)).2 with
     | raised => simp [reinjOf, ident_beq_frag]
     | cleared o =>
       cases o with
@@ -244,7 +256,7 @@ theorem proj_recv_key (cfg : RCfg) (s : AState) (b : FBundle) (k : Key) (hw : Ta
     (hk : keyOf b.primary = k) (hn : numsOk b = true) (hc : cfg.crcOk (norm b) = true)
     (hs : (b.primary.src == cfg.nodeId) = false) (hd : cfg.deliver b.primary.dest = true)
     (hf : isFragment b.primary.flags = true) :
-    proj k (recvBundle cfg s b) = recvProj (proj k s) b := by
+    proj k (recvBundle cfg s b) = recvProj cfg.crcFn (proj k s) b := by
   subst hk; exact proj_recv_key' cfg s b hw hn hc hs hd hf
 
 theorem isFragment_clearFragFlag (f : Nat) : isFragment (clearFragFlag f) = false := by
@@ -257,7 +269,8 @@ theorem numsOk_congr (a b : FBundle) (h : a.blocks.map (fun x => x.c.blockNum) =
     numsOk a = numsOk b := by
   simp [numsOk, h]
 
-theorem numsOk_synth (f : FBundle) (d : Bytes) : numsOk (synth f d) = numsOk f := by
+theorem numsOk_synth (crcFn : Nat → Bytes → Bytes) (f : FBundle) (d : Bytes) :
+    numsOk (synth crcFn f d) = numsOk f := by
   apply numsOk_congr
   simp only [synth, norm, List.map_map]
   apply List.map_congr_left
@@ -275,7 +288,7 @@ theorem proj_idle_key (cfg : RCfg) (s : AState) (j : Nat) (rb : FBundle) (k : Ke
       { entry := (proj k s).entry, seen := fun f => f == none || (proj k s).seen f,
         pending := (s.pending.eraseIdx j).filter (hasKey k),
         delivered := (proj k s).delivered ++ [norm rb] } := by
-  have hid : identOf rb.primary = ⟨k, none⟩ := by simp [identOf, hf, hk]
+  have hid : identOf (norm rb) = ⟨k, none⟩ := by simp [identOf, hf, hk]
   have hsn : s.seen ⟨k, none⟩ = false := hseen
   have hkb : hasKey k (norm rb) = true := by simp [hasKey, hk]
   simp only [step, hj]
@@ -307,18 +320,18 @@ theorem take_drop_getElem? (P : Bytes) (off n j : Nat) (h : j < n) :
     ((P.drop off).take n)[j]? = P[off + j]? := by
   simp [h, List.getElem?_drop]
 
+
 /-! ### consistent fragments of one bundle -/
 
 /-- (offset, payload length) of a fragment -/
 def rangeOf (b : FBundle) : Range := (b.primary.fragOff, ((norm b).payload.getD []).length)
 
-/-- the first fragment with offset 0 in arrival order -/
-def firstZero (fr : List FBundle) : Option FBundle := fr.find? (fun b => b.primary.fragOff == 0)
-
 /-- `b` is a fragment of the bundle with key `k` and payload `P` that the agent will hand to
     reassembly: right key, fragment flag, total length |P|, its data is the slice of `P` at its
     offset; it passes the gates of `recv_bundle` (block numbers, CRC, not our own, routed to deliver).
-    `synthOk`: the bundle synthesised from an offset-0 fragment passes the CRC gate when re-injected. -/
+    `synthOk`: the bundle synthesised from an offset-0 fragment passes the CRC gate when re-injected
+    (its primary CRC has just been recomputed, its payload block has CRC none, the other blocks are
+    copies of blocks that passed the gate). -/
 structure ConsFrag (cfg : RCfg) (k : Key) (P : Bytes) (b : FBundle) : Prop where
   key : keyOf b.primary = k
   frag : isFragment b.primary.flags = true
@@ -329,55 +342,87 @@ structure ConsFrag (cfg : RCfg) (k : Key) (P : Bytes) (b : FBundle) : Prop where
   dlv : cfg.deliver b.primary.dest = true
   data : ∃ d, (norm b).payload = some d ∧ b.primary.fragOff + d.length ≤ P.length ∧
     d = (P.drop b.primary.fragOff).take d.length
-  synthOk : b.primary.fragOff = 0 → cfg.crcOk (norm (synth (norm b) P)) = true
+  synthOk : b.primary.fragOff = 0 → cfg.crcOk (norm (synth cfg.crcFn (norm b) P)) = true
 
-theorem rangeOf_cons {cfg : RCfg} {k : Key} {P : Bytes} {b : FBundle} {d : Bytes}
-    (hd : (norm b).payload = some d) : rangeOf b = (b.primary.fragOff, d.length) := by
-  simp [rangeOf, hd]
+/-- equal fragment identities mean equal ranges (the identity now carries the payload length) -/
+theorem rangeOf_of_fragId {b b' : FBundle} (h : fragId b = fragId b') : rangeOf b = rangeOf b' := by
+  simp only [fragId, Option.some.injEq, Prod.mk.injEq] at h
+  simp only [rangeOf, h.1]
+  cases h1 : (norm b).payload <;> cases h2 : (norm b').payload <;> simp_all
 
-theorem firstZero_append_of_some (fr : List FBundle) (b f0 : FBundle) (h : firstZero fr = some f0) :
-    firstZero (fr ++ [b]) = some f0 := by
-  simp [firstZero, List.find?_append, h] at *
-  simp [h]
+/-- the bundle reassembly synthesises from an offset-0 fragment of `fr` and the payload `P` -/
+def Synth (cfg : RCfg) (P : Bytes) (fr : List FBundle) (rb : FBundle) : Prop :=
+  ∃ f0 ∈ fr, f0.primary.fragOff = 0 ∧ rb = synth cfg.crcFn (norm f0) P
 
-theorem firstZero_append_of_none (fr : List FBundle) (b : FBundle) (h : firstZero fr = none) :
-    firstZero (fr ++ [b]) = if b.primary.fragOff == 0 then some b else none := by
-  simp only [firstZero] at *
-  rw [List.find?_append, h]
-  simp [List.find?_cons]
-  split <;> simp_all
+theorem Synth.mono {cfg : RCfg} {P : Bytes} {fr : List FBundle} {rb : FBundle} (b : FBundle)
+    (h : Synth cfg P fr rb) : Synth cfg P (fr ++ [b]) rb := by
+  obtain ⟨f0, h1, h2, h3⟩ := h
+  exact ⟨f0, List.mem_append_left _ h1, h2, h3⟩
 
-theorem firstZero_none_iff (fr : List FBundle) : firstZero fr = none ↔ ∀ b ∈ fr, b.primary.fragOff ≠ 0 := by
-  simp [firstZero, List.find?_eq_none]
-
-theorem firstZero_some_mem {fr : List FBundle} {f0 : FBundle} (h : firstZero fr = some f0) :
-    f0 ∈ fr ∧ f0.primary.fragOff = 0 := by
-  refine ⟨List.mem_of_find?_eq_some h, ?_⟩
-  have := List.find?_some h
-  simpa using this
-
-/-- the entry after get-or-create and `first_frag`, for an unseen consistent fragment -/
-structure EntryOk (P : Bytes) (fr : List FBundle) (e : Entry) : Prop where
+/-- what is known of a reassembly entry of `k` at any time -/
+structure EntryG (P : Bytes) (fr : List FBundle) (e : Entry) : Prop where
   total : e.total = P.length
   len : e.data.length = P.length
-  ranges : ∀ r, r ∈ e.ranges ↔ r ∈ fr.map rangeOf
   agree : ∀ i, coveredAt e.ranges i → e.data[i]? = P[i]?
+  sub : ∀ r ∈ e.ranges, r ∈ fr.map rangeOf
+  first : ∀ f, e.first = some f → ∃ f0 ∈ fr, f0.primary.fragOff = 0 ∧ f = norm f0
+  zero : (∃ r ∈ e.ranges, r.1 = 0) → e.first ≠ none
 
-theorem inject_ok (P : Bytes) (fr : List FBundle) (e : Entry) (b : FBundle) (d : Bytes)
-    (he : EntryOk P fr e) (hd : (norm b).payload = some d)
+theorem EntryG.mono {P : Bytes} {fr : List FBundle} {e : Entry} (b : FBundle) (h : EntryG P fr e) :
+    EntryG P (fr ++ [b]) e := by
+  refine ⟨h.total, h.len, h.agree, ?_, ?_, h.zero⟩
+  · intro r hr
+    simp only [List.map_append, List.mem_append]
+    exact Or.inl (h.sub r hr)
+  · intro f hf
+    obtain ⟨f0, h1, h2, h3⟩ := h.first f hf
+    exact ⟨f0, List.mem_append_left _ h1, h2, h3⟩
+
+theorem entryOf_G (cfg : RCfg) (k : Key) (P : Bytes) (fr : List FBundle) (cur : Option Entry) (b : FBundle)
+    (hb : ConsFrag cfg k P b) (hcur : ∀ e, cur = some e → EntryG P fr e) :
+    EntryG P (fr ++ [b]) (entryOf cur (norm b)) ∧
+      (b.primary.fragOff = 0 → (entryOf cur (norm b)).first ≠ none) ∧
+      (entryOf cur (norm b)).ranges = (cur.map (fun e => e.ranges)).getD [] := by
+  have hbm : b ∈ fr ++ [b] := by simp
+  unfold entryOf
+  simp only [norm_primary]
+  cases hc : cur with
+  | none =>
+    simp only [Option.getD_none, Option.map_none]
+    by_cases h0 : (b.primary.fragOff == 0) = true
+    · simp only [h0, if_true]
+      refine ⟨⟨hb.total, by simp [zeros, hb.total], ?_, by simp, ?_, by simp⟩, by simp, by first | rfl | trivial⟩
+      · intro i hi; obtain ⟨r, hr, _⟩ := hi; simp at hr
+      · intro f hf
+        simp at hf
+        exact ⟨b, hbm, by simpa using h0, hf.symm⟩
+    · have h0' : (b.primary.fragOff == 0) = false := by simpa using h0
+      simp only [h0', Bool.false_eq_true, if_false]
+      refine ⟨⟨hb.total, by simp [zeros, hb.total], ?_, by simp, by simp, by simp⟩, ?_, by first | rfl | trivial⟩
+      · intro i hi; obtain ⟨r, hr, _⟩ := hi; simp at hr
+      · intro h; simp [h] at h0'
+  | some e =>
+    have hG := (hcur e hc).mono b
+    simp only [Option.getD_some, Option.map_some]
+    by_cases h0 : (b.primary.fragOff == 0) = true
+    · simp only [h0, if_true]
+      refine ⟨⟨hG.total, hG.len, hG.agree, hG.sub, ?_, by simp⟩, by simp, by first | rfl | trivial⟩
+      intro f hf
+      simp at hf
+      exact ⟨b, hbm, by simpa using h0, hf.symm⟩
+    · have h0' : (b.primary.fragOff == 0) = false := by simpa using h0
+      simp only [h0', Bool.false_eq_true, if_false]
+      exact ⟨hG, fun h => by simp [h] at h0', by first | rfl | trivial⟩
+
+theorem inject_G (P : Bytes) (fr : List FBundle) (e : Entry) (b : FBundle) (d : Bytes)
+    (he : EntryG P (fr ++ [b]) e) (h0 : b.primary.fragOff = 0 → e.first ≠ none)
+    (hd : (norm b).payload = some d)
     (hle : b.primary.fragOff + d.length ≤ P.length) (hdP : d = (P.drop b.primary.fragOff).take d.length) :
-    EntryOk P (fr ++ [b]) (inject e b.primary.fragOff d) := by
+    EntryG P (fr ++ [b]) (inject e b.primary.fragOff d) := by
   have hr : rangeOf b = (b.primary.fragOff, d.length) := by simp [rangeOf, hd]
-  refine ⟨he.total, ?_, ?_, ?_⟩
+  refine ⟨he.total, ?_, ?_, ?_, he.first, ?_⟩
   · show (splice e.data b.primary.fragOff d).length = P.length
     rw [splice_length _ _ _ (by rw [he.len]; exact hle), he.len]
-  · intro r
-    show r ∈ (b.primary.fragOff, d.length) :: e.ranges ↔ _
-    simp only [List.mem_cons, List.map_append, List.mem_append, List.map_cons, List.map_nil,
-      he.ranges r, hr, List.not_mem_nil, or_false]
-    constructor
-    · rintro (h | h); exact Or.inr h; exact Or.inl h
-    · rintro (h | h); exact Or.inr h; exact Or.inl h
   · intro i hi
     show (splice e.data b.primary.fragOff d)[i]? = P[i]?
     by_cases hin : b.primary.fragOff ≤ i ∧ i < b.primary.fragOff + d.length
@@ -390,82 +435,22 @@ theorem inject_ok (P : Bytes) (fr : List FBundle) (e : Entry) (b : FBundle) (d :
       rcases List.mem_cons.1 hr' with e' | e'
       · subst e'; exact absurd ⟨h1, h2⟩ hin
       · exact ⟨r, e', h1, h2⟩
+  · intro r hr'
+    rcases List.mem_cons.1 hr' with e' | e'
+    · rw [e', ← hr]; exact List.mem_map.2 ⟨b, by simp, rfl⟩
+    · exact he.sub r e'
+  · rintro ⟨r, hr', hz⟩
+    rcases List.mem_cons.1 hr' with e' | e'
+    · rw [e'] at hz; exact h0 hz
+    · exact he.zero ⟨r, e', hz⟩
 
-theorem data_eq_of_exact (P : Bytes) (fr : List FBundle) (e : Entry) (he : EntryOk P fr e)
+theorem data_eq_of_covered (P : Bytes) (fr : List FBundle) (e : Entry) (he : EntryG P fr e)
     (hx : covered e.ranges P.length) : e.data = P := by
   apply List.ext_getElem?
   intro i
   by_cases hi : i < P.length
   · exact he.agree i (hx i hi)
   · rw [List.getElem?_eq_none (by rw [he.len]; omega), List.getElem?_eq_none (by omega)]
-
-/-! ### the two phases of one bundle's reassembly -/
-
-/-- still collecting: nothing of `k` delivered or pending, the entry mirrors the fragments so far -/
-structure InvA (P : Bytes) (fr : List FBundle) (pj : Proj) : Prop where
-  del : pj.delivered = []
-  pend : pj.pending = []
-  seenNone : pj.seen none = false
-  seenFrag : ∀ o t, pj.seen (some (o, t)) = true ↔ (t = P.length ∧ ∃ b ∈ fr, b.primary.fragOff = o)
-  empty : fr = [] → pj.entry = none
-  entry : fr ≠ [] → ∃ e, pj.entry = some e ∧ EntryOk P fr e ∧ e.first = (firstZero fr).map norm ∧
-    ¬ exact e.ranges P.length
-
-/-- completed: the received ranges cover the payload and exactly one synthesised bundle is either
-    pending or delivered -/
-structure InvB (P : Bytes) (fr : List FBundle) (pj : Proj) : Prop where
-  cov : covered (fr.map rangeOf) P.length
-  one : ∃ f0, firstZero fr = some f0 ∧
-    ((pj.pending = [synth (norm f0) P] ∧ pj.delivered = [] ∧ pj.seen none = false) ∨
-     (pj.pending = [] ∧ pj.delivered = [norm (synth (norm f0) P)] ∧ pj.seen none = true))
-  seenZero : pj.seen (some (0, P.length)) = true
-  junk : ∀ e, pj.entry = some e → 0 < P.length ∧ e.total = P.length ∧ ∀ r ∈ e.ranges, r.1 ≠ 0
-
-theorem invA_init (P : Bytes) (k : Key) : InvA P [] (proj k AState.init) := by
-  refine ⟨rfl, rfl, rfl, ?_, fun _ => rfl, fun h => absurd rfl h⟩
-  intro o t
-  simp [proj, AState.init]
-
-private theorem entryOf_ok (cfg : RCfg) (k : Key) (P : Bytes) (fr : List FBundle) (pj : Proj) (b : FBundle)
-    (hA : InvA P fr pj) (hb : ConsFrag cfg k P b)
-    (hnew : ∀ b' ∈ fr, b'.primary.fragOff ≠ b.primary.fragOff) :
-    EntryOk P fr (entryOf pj.entry (norm b)) ∧
-      (entryOf pj.entry (norm b)).first = (firstZero (fr ++ [b])).map norm := by
-  by_cases hfr : fr = []
-  · subst hfr
-    rw [hA.empty rfl]
-    unfold entryOf
-    simp only [Option.getD_none, norm_primary]
-    by_cases h0 : (b.primary.fragOff == 0) = true
-    · simp only [h0, if_true]
-      refine ⟨⟨hb.total, by simp [zeros, hb.total], by simp, by intro i hi; obtain ⟨r, hr, _⟩ := hi; simp at hr⟩, ?_⟩
-      simp [firstZero, List.find?_cons, h0]
-    · have h0' : (b.primary.fragOff == 0) = false := by simpa using h0
-      simp only [h0', Bool.false_eq_true, if_false]
-      refine ⟨⟨hb.total, by simp [zeros, hb.total], by simp, by intro i hi; obtain ⟨r, hr, _⟩ := hi; simp at hr⟩, ?_⟩
-      simp [firstZero, List.find?_cons, h0']
-  · obtain ⟨e, he, hok, hfirst, _⟩ := hA.entry hfr
-    rw [he]
-    unfold entryOf
-    simp only [Option.getD_some, norm_primary]
-    by_cases h0 : (b.primary.fragOff == 0) = true
-    · simp only [h0, if_true]
-      refine ⟨⟨hok.total, hok.len, hok.ranges, hok.agree⟩, ?_⟩
-      have hnone : firstZero fr = none := by
-        rw [firstZero_none_iff]
-        intro b' hb'
-        have := hnew b' hb'
-        have h0' : b.primary.fragOff = 0 := by simpa using h0
-        omega
-      rw [firstZero_append_of_none _ _ hnone]
-      simp [h0]
-    · have h0' : (b.primary.fragOff == 0) = false := by simpa using h0
-      simp only [h0', Bool.false_eq_true, if_false]
-      refine ⟨hok, ?_⟩
-      rw [hfirst]
-      cases hz : firstZero fr with
-      | none => rw [firstZero_append_of_none _ _ hz]; simp [h0']
-      | some f0 => rw [firstZero_append_of_some _ _ _ hz]
 
 theorem payloadBlk_isSome_of_payload {b : FBundle} {d : Bytes} (h : b.payload = some d) :
     (payloadBlk b.blocks).isSome = true := by
@@ -474,184 +459,163 @@ theorem payloadBlk_isSome_of_payload {b : FBundle} {d : Bytes} (h : b.payload = 
   | none => simp [hp] at h
   | some x => rfl
 
-/-- a consistent, unseen or seen, fragment arriving while collecting -/
-theorem invA_step (cfg : RCfg) (k : Key) (P : Bytes) (fr : List FBundle) (pj : Proj) (b : FBundle)
-    (hA : InvA P fr pj) (hb : ConsFrag cfg k P b) (hall : ∀ b' ∈ fr, ConsFrag cfg k P b')
-    (hso : ∀ b' ∈ fr, b'.primary.fragOff = b.primary.fragOff → rangeOf b' = rangeOf b) :
-    InvA P (fr ++ [b]) (recvProj pj b) ∨ InvB P (fr ++ [b]) (recvProj pj b) := by
+/-! ### the invariant of one bundle's reassembly, over arbitrary histories -/
+
+structure Inv (cfg : RCfg) (P : Bytes) (fr : List FBundle) (pj : Proj) : Prop where
+  /-- the seen fragment identities of `k` are those of the fragments received -/
+  seenFrag : ∀ x, pj.seen (some x) = true ↔ ∃ b ∈ fr, fragId b = some x
+  /-- a stored entry is consistent with `P` and incomplete -/
+  entry : ∀ e, pj.entry = some e → EntryG P fr e ∧ ¬ exact e.ranges P.length
+  /-- every pending re-injection of `k` is a correctly synthesised bundle -/
+  pend : ∀ rb ∈ pj.pending, Synth cfg P fr rb
+  /-- at most one delivery, and it is a correctly synthesised bundle -/
+  del : pj.delivered = [] ∨ ∃ rb, Synth cfg P fr rb ∧ pj.delivered = [norm rb]
+  seenNone : pj.seen none = true ↔ pj.delivered ≠ []
+  /-- nothing is produced before the received ranges cover the payload -/
+  early : (pj.pending ≠ [] ∨ pj.delivered ≠ []) → covered (fr.map rangeOf) P.length
+  /-- until something is produced the entry holds every range received -/
+  fresh : pj.pending = [] → pj.delivered = [] →
+    (fr = [] ∧ pj.entry = none) ∨ ∃ e, pj.entry = some e ∧ ∀ r, r ∈ fr.map rangeOf → r ∈ e.ranges
+
+theorem inv_init (cfg : RCfg) (P : Bytes) (k : Key) : Inv cfg P [] (proj k AState.init) := by
+  refine ⟨?_, ?_, ?_, Or.inl rfl, ?_, ?_, fun _ _ => Or.inl ⟨rfl, rfl⟩⟩
+  · intro x; simp [proj, AState.init]
+  · intro e he; simp [proj, AState.init] at he
+  · intro rb hrb; simp [proj, AState.init] at hrb
+  · simp [proj, AState.init]
+  · intro h; simp [proj, AState.init] at h
+
+private theorem seen_upd (fr : List FBundle) (pj : Proj) (b : FBundle)
+    (hs : ∀ x, pj.seen (some x) = true ↔ ∃ b' ∈ fr, fragId b' = some x) (x : Nat × Option Nat) :
+    ((some x == fragId b) || pj.seen (some x)) = true ↔ ∃ b2 ∈ fr ++ [b], fragId b2 = some x := by
+  simp only [Bool.or_eq_true, beq_iff_eq, hs x]
+  constructor
+  · rintro (h | ⟨b', hb', h⟩)
+    · exact ⟨b, by simp, h.symm⟩
+    · exact ⟨b', List.mem_append_left _ hb', h⟩
+  · rintro ⟨b2, hb2, h⟩
+    rcases List.mem_append.1 hb2 with h' | h'
+    · exact Or.inr ⟨b2, h', h⟩
+    · simp at h'; subst h'; exact Or.inl h.symm
+
+/-- **One consistent fragment of `k` arrives** (new, duplicate, overlapping, after completion …). -/
+theorem inv_step (cfg : RCfg) (k : Key) (P : Bytes) (fr : List FBundle) (pj : Proj) (b : FBundle)
+    (hI : Inv cfg P fr pj) (hb : ConsFrag cfg k P b) (hall : ∀ b' ∈ fr, ConsFrag cfg k P b') :
+    Inv cfg P (fr ++ [b]) (recvProj cfg.crcFn pj b) := by
   obtain ⟨d, hd, hle, hdP⟩ := hb.data
-  have hr : rangeOf b = (b.primary.fragOff, d.length) := by simp [rangeOf, hd]
+  have hrb : rangeOf b = (b.primary.fragOff, d.length) := by simp [rangeOf, hd]
+  have hcovm : covered (fr.map rangeOf) P.length → covered ((fr ++ [b]).map rangeOf) P.length :=
+    covered_mono (fun r hr => by simp only [List.map_append, List.mem_append]; exact Or.inl hr) _
+  have hfid : ∃ x, fragId b = some x := ⟨_, rfl⟩
+  obtain ⟨xb, hxb⟩ := hfid
   unfold recvProj
-  simp only [hb.total]
-  by_cases hseen : pj.seen (some (b.primary.fragOff, P.length)) = true
+  by_cases hseen : pj.seen (fragId b) = true
   · -- duplicate by identity: ignored
     simp only [hseen, if_true]
-    left
-    obtain ⟨_, b', hb', hoff⟩ := (hA.seenFrag _ _).1 hseen
-    have hne : fr ≠ [] := by intro h; subst h; simp at hb'
-    obtain ⟨e, he, hok, hfirst, hnx⟩ := hA.entry hne
-    refine ⟨hA.del, hA.pend, hA.seenNone, ?_, fun h => by simp at h, fun _ => ⟨e, he, ?_, ?_, hnx⟩⟩
-    · intro o t
-      rw [hA.seenFrag o t]
+    rw [hxb] at hseen
+    obtain ⟨b', hb', hid'⟩ := (hI.seenFrag xb).1 hseen
+    have hrr : rangeOf b' = rangeOf b := rangeOf_of_fragId (hid'.trans hxb.symm)
+    refine ⟨?_, fun e he => ⟨(hI.entry e he).1.mono b, (hI.entry e he).2⟩,
+      fun rb hrb' => (hI.pend rb hrb').mono b, ?_, hI.seenNone, fun h => hcovm (hI.early h), ?_⟩
+    · intro x
+      rw [hI.seenFrag x]
       constructor
-      · rintro ⟨h1, b2, hb2, h2⟩; exact ⟨h1, b2, List.mem_append_left _ hb2, h2⟩
-      · rintro ⟨h1, b2, hb2, h2⟩
-        rcases List.mem_append.1 hb2 with h | h
-        · exact ⟨h1, b2, h, h2⟩
-        · simp at h; subst h; exact ⟨h1, b', hb', hoff.trans h2⟩
-    · refine ⟨hok.total, hok.len, ?_, hok.agree⟩
-      intro r
-      rw [hok.ranges r]
-      simp only [List.map_append, List.mem_append, List.map_cons, List.map_nil, List.mem_cons,
-        List.not_mem_nil, or_false]
-      constructor
-      · exact Or.inl
-      · rintro (h | h)
-        · exact h
-        · rw [h, ← hso b' hb' hoff]; exact List.mem_map.2 ⟨b', hb', rfl⟩
-    · rw [hfirst]
-      cases hz : firstZero fr with
-      | some f0 => rw [firstZero_append_of_some _ _ _ hz]
-      | none =>
-        rw [firstZero_append_of_none _ _ hz]
-        have := (firstZero_none_iff fr).1 hz b' hb'
-        have : (b.primary.fragOff == 0) = false := by simp; omega
-        simp [this]
+      · rintro ⟨b2, h2, h3⟩; exact ⟨b2, List.mem_append_left _ h2, h3⟩
+      · rintro ⟨b2, h2, h3⟩
+        rcases List.mem_append.1 h2 with h | h
+        · exact ⟨b2, h, h3⟩
+        · simp at h; subst h; exact ⟨b', hb', hid'.trans (hxb.symm.trans h3)⟩
+    · rcases hI.del with h | ⟨rb, h1, h2⟩
+      · exact Or.inl h
+      · exact Or.inr ⟨rb, h1.mono b, h2⟩
+    · intro hp hdl
+      rcases hI.fresh hp hdl with ⟨h1, _⟩ | ⟨e, he, hsup⟩
+      · subst h1; simp at hb'
+      · right
+        refine ⟨e, he, ?_⟩
+        intro r hr
+        simp only [List.map_append, List.mem_append, List.map_cons, List.map_nil, List.mem_cons,
+          List.not_mem_nil, or_false] at hr
+        rcases hr with h | h
+        · exact hsup r h
+        · rw [h, ← hrr]; exact hsup _ (List.mem_map.2 ⟨b', hb', rfl⟩)
   · -- new identity: goes to reassembly
-    have hseen' : pj.seen (some (b.primary.fragOff, P.length)) = false := by simpa using hseen
+    have hseen' : pj.seen (fragId b) = false := by simpa using hseen
     simp only [hseen', Bool.false_eq_true, if_false]
-    have hnew : ∀ b' ∈ fr, b'.primary.fragOff ≠ b.primary.fragOff := by
-      intro b' hb' he
-      exact hseen ((hA.seenFrag _ _).2 ⟨rfl, b', hb', he⟩)
-    obtain ⟨hok1, hfirst1⟩ := entryOf_ok cfg k P fr pj b hA hb hnew
-    have hok2 := inject_ok P fr _ b d hok1 hd hle hdP
-    have hre : reasmEntry pj.entry (norm b)
-        = finish (inject (entryOf pj.entry (norm b)) b.primary.fragOff d) := by
+    obtain ⟨hG1, hz1, hr1⟩ := entryOf_G cfg k P fr pj.entry b hb (fun e he => (hI.entry e he).1)
+    have hG2 := inject_G P fr _ b d hG1 hz1 hd hle hdP
+    have hre : reasmEntry cfg.crcFn pj.entry (norm b)
+        = finish cfg.crcFn (inject (entryOf pj.entry (norm b)) b.primary.fragOff d) := by
       simp [reasmEntry, hd]
-    have hseenF : ∀ o t, ((some (o, t) == some (b.primary.fragOff, P.length)) || pj.seen (some (o, t))) = true ↔
-        (t = P.length ∧ ∃ b2 ∈ fr ++ [b], b2.primary.fragOff = o) := by
-      intro o t
-      simp only [Bool.or_eq_true, beq_iff_eq, Option.some.injEq, Prod.mk.injEq, hA.seenFrag o t]
-      constructor
-      · rintro (⟨h1, h2⟩ | ⟨h1, b2, hb2, h2⟩)
-        · exact ⟨h2, b, by simp, h1.symm⟩
-        · exact ⟨h1, b2, List.mem_append_left _ hb2, h2⟩
-      · rintro ⟨h1, b2, hb2, h2⟩
-        rcases List.mem_append.1 hb2 with h | h
-        · exact Or.inr ⟨h1, b2, h, h2⟩
-        · simp at h; subst h; exact Or.inl ⟨h2.symm, h1⟩
+    have hsn : ((none : Option (Nat × Option Nat)) == fragId b) = false := by rw [hxb]; rfl
+    have hseenF : ∀ x, ((some x == fragId b) || pj.seen (some x)) = true ↔
+        ∃ b2 ∈ fr ++ [b], fragId b2 = some x := seen_upd fr pj b hI.seenFrag
     rw [hre]
     unfold finish
-    have htot : (inject (entryOf pj.entry (norm b)) b.primary.fragOff d).total = P.length := hok2.total
+    have htot : (inject (entryOf pj.entry (norm b)) b.primary.fragOff d).total = P.length := hG2.total
     by_cases hx : exactB (inject (entryOf pj.entry (norm b)) b.primary.fragOff d).ranges
         (inject (entryOf pj.entry (norm b)) b.primary.fragOff d).total = true
     · -- complete
-      right
       have hex : exact (inject (entryOf pj.entry (norm b)) b.primary.fragOff d).ranges P.length := by
         rw [← htot]; exact (exactB_iff _ _).1 hx
-      have hcov : covered ((fr ++ [b]).map rangeOf) P.length :=
-        (covered_congr hok2.ranges _).1 hex.1
-      -- an offset-0 fragment exists
-      have hz : ∃ f0, firstZero (fr ++ [b]) = some f0 := by
-        cases hf : firstZero (fr ++ [b]) with
-        | some f0 => exact ⟨f0, rfl⟩
-        | none =>
-          exfalso
-          have hn := (firstZero_none_iff _).1 hf
-          by_cases hP : 0 < P.length
-          · obtain ⟨r, hr', h1, _⟩ := hcov 0 hP
-            obtain ⟨b2, hb2, rfl⟩ := List.mem_map.1 hr'
-            exact hn b2 hb2 (by simpa [rangeOf] using h1)
-          · exact hn b (by simp) (by omega)
-      obtain ⟨f0, hf0⟩ := hz
-      have hf0m := firstZero_some_mem hf0
-      have hcf0 : ConsFrag cfg k P f0 := by
-        rcases List.mem_append.1 hf0m.1 with h | h
-        · exact hall f0 h
-        · simp at h; subst h; exact hb
-      obtain ⟨d0, hd0, _, _⟩ := hcf0.data
-      have hfirst2 : (inject (entryOf pj.entry (norm b)) b.primary.fragOff d).first = some (norm f0) := by
-        show (entryOf pj.entry (norm b)).first = _
-        rw [hfirst1, hf0]; rfl
-      have hdata : (inject (entryOf pj.entry (norm b)) b.primary.fragOff d).data = P :=
-        data_eq_of_exact P _ _ hok2 hex.1
-      simp only [hx, if_true, hfirst2, payloadBlk_isSome_of_payload hd0, hdata, reinjOf, hA.pend, hA.del,
-        List.nil_append]
-      refine ⟨hcov, ⟨f0, hf0, Or.inl ⟨rfl, rfl, ?_⟩⟩, ?_, fun e he => by simp at he⟩
-      · simp [hA.seenNone]
-      · exact (hseenF 0 P.length).2 ⟨rfl, f0, hf0m.1, hf0m.2⟩
+      have hcov : covered ((fr ++ [b]).map rangeOf) P.length := covered_mono hG2.sub _ hex.1
+      -- an offset-0 range was spliced in, so the first fragment is known
+      have hz : ∃ r ∈ (inject (entryOf pj.entry (norm b)) b.primary.fragOff d).ranges, r.1 = 0 := by
+        by_cases hP : 0 < P.length
+        · obtain ⟨r, hr', h1, _⟩ := hex.1 0 hP
+          exact ⟨r, hr', by omega⟩
+        · exact ⟨(b.primary.fragOff, d.length), List.mem_cons_self, by simp; omega⟩
+      have hne := hG2.zero hz
+      cases hf : (inject (entryOf pj.entry (norm b)) b.primary.fragOff d).first with
+      | none => exact absurd hf hne
+      | some f =>
+        obtain ⟨f0, hf0m, hf00, hff⟩ := hG2.first f hf
+        have hcf0 : ConsFrag cfg k P f0 := by
+          rcases List.mem_append.1 hf0m with h | h
+          · exact hall f0 h
+          · simp at h; subst h; exact hb
+        obtain ⟨d0, hd0, _, _⟩ := hcf0.data
+        have hdata : (inject (entryOf pj.entry (norm b)) b.primary.fragOff d).data = P :=
+          data_eq_of_covered P _ _ hG2 hex.1
+        have hpb : (payloadBlk f.blocks).isSome = true := by
+          rw [hff]; exact payloadBlk_isSome_of_payload hd0
+        simp only [hx, if_true, hpb, hdata, reinjOf]
+        refine ⟨hseenF, fun e he => by simp at he, ?_, ?_, ?_, fun _ => hcov, ?_⟩
+        · intro rb hrb'
+          rcases List.mem_append.1 hrb' with h | h
+          · exact (hI.pend rb h).mono b
+          · simp at h; exact ⟨f0, hf0m, hf00, by rw [h, hff]⟩
+        · rcases hI.del with h | ⟨rb, h1, h2⟩
+          · exact Or.inl h
+          · exact Or.inr ⟨rb, h1.mono b, h2⟩
+        · simp only [hsn, Bool.false_or]; exact hI.seenNone
+        · intro hp; simp at hp
     · -- still incomplete
-      left
       have hx' : exactB (inject (entryOf pj.entry (norm b)) b.primary.fragOff d).ranges
         (inject (entryOf pj.entry (norm b)) b.primary.fragOff d).total = false := by simpa using hx
-      simp only [hx', Bool.false_eq_true, if_false, reinjOf, hA.pend, hA.del, List.append_nil]
-      refine ⟨rfl, rfl, by simp [hA.seenNone], hseenF, fun h => by simp at h, fun _ => ⟨_, rfl, hok2, ?_, ?_⟩⟩
-      · show (entryOf pj.entry (norm b)).first = _
-        exact hfirst1
-      · intro hex
-        apply hx
-        rw [htot]; exact (exactB_iff _ _).2 hex
-
-/-- a consistent fragment arriving after completion: ignored as seen, or parked in a junk entry that
-    can never complete (it has no offset-0 range: that identity is already in the seen set) -/
-theorem invB_step (cfg : RCfg) (k : Key) (P : Bytes) (fr : List FBundle) (pj : Proj) (b : FBundle)
-    (hB : InvB P fr pj) (hb : ConsFrag cfg k P b) : InvB P (fr ++ [b]) (recvProj pj b) := by
-  obtain ⟨d, hd, hle, hdP⟩ := hb.data
-  obtain ⟨f0, hf0, hone⟩ := hB.one
-  have hcov : covered ((fr ++ [b]).map rangeOf) P.length :=
-    covered_mono (fun r hr => by simp only [List.map_append, List.mem_append]; exact Or.inl hr) _ hB.cov
-  have hf0' := firstZero_append_of_some fr b f0 hf0
-  unfold recvProj
-  simp only [hb.total]
-  by_cases hseen : pj.seen (some (b.primary.fragOff, P.length)) = true
-  · simp only [hseen, if_true]
-    exact ⟨hcov, ⟨f0, hf0', hone⟩, hB.seenZero, hB.junk⟩
-  · have hseen' : pj.seen (some (b.primary.fragOff, P.length)) = false := by simpa using hseen
-    simp only [hseen', Bool.false_eq_true, if_false]
-    have hoff : b.primary.fragOff ≠ 0 := by
-      intro h0; rw [h0] at hseen; exact hseen hB.seenZero
-    have hPpos : 0 < P.length := by omega
-    have hoff' : (b.primary.fragOff == 0) = false := by simpa using hoff
-    -- the entry before injection: junk or fresh, no offset-0 range
-    have he1 : (entryOf pj.entry (norm b)).total = P.length ∧
-        ∀ r ∈ (entryOf pj.entry (norm b)).ranges, r.1 ≠ 0 := by
-      unfold entryOf
-      simp only [norm_primary, hoff', Bool.false_eq_true, if_false]
-      cases he : pj.entry with
-      | none => simp [hb.total]
-      | some e =>
-        obtain ⟨_, h2, h3⟩ := hB.junk e he
-        simp only [Option.getD_some]; exact ⟨h2, h3⟩
-    have hre : reasmEntry pj.entry (norm b)
-        = finish (inject (entryOf pj.entry (norm b)) b.primary.fragOff d) := by
-      simp [reasmEntry, hd]
-    have hr2 : ∀ r ∈ (inject (entryOf pj.entry (norm b)) b.primary.fragOff d).ranges, r.1 ≠ 0 := by
-      intro r hr
-      rcases List.mem_cons.1 hr with h | h
-      · rw [h]; exact hoff
-      · exact he1.2 r h
-    have hnx : exactB (inject (entryOf pj.entry (norm b)) b.primary.fragOff d).ranges
-        (inject (entryOf pj.entry (norm b)) b.primary.fragOff d).total = false := by
-      cases hx : exactB (inject (entryOf pj.entry (norm b)) b.primary.fragOff d).ranges
-        (inject (entryOf pj.entry (norm b)) b.primary.fragOff d).total with
-      | false => rfl
-      | true =>
-        exfalso
-        have hex := (exactB_iff _ _).1 hx
-        have ht : (inject (entryOf pj.entry (norm b)) b.primary.fragOff d).total = P.length := he1.1
-        rw [ht] at hex
-        obtain ⟨r, hr, h1, _⟩ := hex.1 0 hPpos
-        exact hr2 r hr (by omega)
-    rw [hre]
-    unfold finish
-    simp only [hnx, Bool.false_eq_true, if_false, reinjOf, List.append_nil]
-    refine ⟨hcov, ⟨f0, hf0', ?_⟩, by simp [hB.seenZero], ?_⟩
-    · rcases hone with ⟨h1, h2, h3⟩ | ⟨h1, h2, h3⟩
-      · exact Or.inl ⟨h1, h2, by simp [h3]⟩
-      · exact Or.inr ⟨h1, h2, by simp [h3]⟩
-    · intro e he
-      simp at he; subst he
-      exact ⟨hPpos, he1.1, hr2⟩
+      simp only [hx', Bool.false_eq_true, if_false, reinjOf, List.append_nil]
+      refine ⟨hseenF, ?_, fun rb hrb' => (hI.pend rb hrb').mono b, ?_, ?_, fun h => hcovm (hI.early h), ?_⟩
+      · intro e he
+        simp at he; subst he
+        refine ⟨hG2, ?_⟩
+        intro hex; apply hx; rw [htot]; exact (exactB_iff _ _).2 hex
+      · rcases hI.del with h | ⟨rb, h1, h2⟩
+        · exact Or.inl h
+        · exact Or.inr ⟨rb, h1.mono b, h2⟩
+      · simp only [hsn, Bool.false_or]; exact hI.seenNone
+      · intro hp hdl
+        right
+        refine ⟨_, rfl, ?_⟩
+        intro r hr
+        show r ∈ (b.primary.fragOff, d.length) :: (entryOf pj.entry (norm b)).ranges
+        simp only [List.map_append, List.mem_append, List.map_cons, List.map_nil, List.mem_cons,
+          List.not_mem_nil, or_false] at hr
+        rcases hr with h | h
+        · rcases hI.fresh hp hdl with ⟨h1, _⟩ | ⟨e, he, hsup⟩
+          · subst h1; simp at h
+          · rw [hr1, he]
+            exact List.mem_cons_of_mem _ (hsup r h)
+        · rw [h, hrb]; exact List.mem_cons_self
 
 theorem norm_blocks_nums (f : FBundle) :
     (norm f).blocks.map (fun x => x.c.blockNum) = f.blocks.map (fun x => x.c.blockNum) := by
@@ -665,83 +629,101 @@ def kfrags (k : Key) : List Ev → List FBundle
   | .recv b :: es => if hasKey k b then b :: kfrags k es else kfrags k es
   | .idle _ :: es => kfrags k es
 
-def Phase (P : Bytes) (fr : List FBundle) (pj : Proj) : Prop := InvA P fr pj ∨ InvB P fr pj
+theorem mem_filter_eraseIdx {α : Type} (p : α → Bool) (l : List α) (j : Nat) (x : α)
+    (h : x ∈ (l.eraseIdx j).filter p) : x ∈ l.filter p := by
+  simp only [List.mem_filter] at h ⊢
+  exact ⟨(List.eraseIdx_sublist l j).subset h.1, h.2⟩
 
+/-- the idle callback of a re-injection of `k` runs: delivered if it is the first, dropped if not -/
 theorem idle_key_step (cfg : RCfg) (k : Key) (P : Bytes) (fr : List FBundle) (s : AState) (j : Nat)
     (rb : FBundle) (hj : s.pending[j]? = some rb) (hk : hasKey k rb = true)
-    (hall : ∀ b ∈ fr, ConsFrag cfg k P b) (hph : Phase P fr (proj k s)) :
-    Phase P fr (proj k (step cfg s (.idle j))) := by
+    (hall : ∀ b ∈ fr, ConsFrag cfg k P b) (hI : Inv cfg P fr (proj k s)) :
+    Inv cfg P fr (proj k (step cfg s (.idle j))) := by
   have hmem : rb ∈ (proj k s).pending := by
     simp only [proj, List.mem_filter]
     exact ⟨List.mem_of_getElem? hj, hk⟩
-  rcases hph with hA | hB
-  · rw [hA.pend] at hmem; simp at hmem
-  · obtain ⟨f0, hf0, hone⟩ := hB.one
-    rcases hone with ⟨h1, h2, h3⟩ | ⟨h1, _, _⟩
-    · rw [h1] at hmem
-      simp at hmem
-      have hf0m := firstZero_some_mem hf0
-      have hc := hall f0 hf0m.1
-      have hkey : keyOf rb.primary = k := by rw [hmem]; exact hc.key
-      have hnum : numsOk rb = true := by
-        rw [hmem, numsOk_synth, numsOk_congr _ f0 (norm_blocks_nums f0)]; exact hc.nums
-      have hcrc : cfg.crcOk (norm rb) = true := by rw [hmem]; exact hc.synthOk hf0m.2
-      have hsrc : (rb.primary.src == cfg.nodeId) = false := by rw [hmem]; exact hc.src
-      have hdl : cfg.deliver rb.primary.dest = true := by rw [hmem]; exact hc.dlv
-      have hfl : isFragment rb.primary.flags = false := by rw [hmem]; exact isFragment_clearFragFlag _
-      rw [proj_idle_key cfg s j rb k hj hkey hnum hcrc hsrc hdl hfl h3]
-      right
-      have hlen := length_filter_eraseIdx (hasKey k) s.pending j rb hj hk
-      have hp1 : (s.pending.filter (hasKey k)).length = 1 := by
-        have : (proj k s).pending = s.pending.filter (hasKey k) := rfl
-        rw [← this, h1]; rfl
-      have hp0 : (s.pending.eraseIdx j).filter (hasKey k) = [] := by
-        apply List.eq_nil_of_length_eq_zero; omega
-      refine ⟨hB.cov, ⟨f0, hf0, Or.inr ⟨hp0, ?_, by simp⟩⟩, by simp [hB.seenZero], hB.junk⟩
-      rw [h2, hmem]; rfl
-    · rw [h1] at hmem; simp at hmem
+  obtain ⟨f0, hf0m, hf00, hrb⟩ := hI.pend rb hmem
+  have hc := hall f0 hf0m
+  have hkey : keyOf rb.primary = k := by rw [hrb, keyOf_synth]; exact hc.key
+  have hnum : numsOk rb = true := by
+    rw [hrb, numsOk_synth, numsOk_congr _ f0 (norm_blocks_nums f0)]; exact hc.nums
+  have hcrc : cfg.crcOk (norm rb) = true := by rw [hrb]; exact hc.synthOk hf00
+  have hsrc : (rb.primary.src == cfg.nodeId) = false := by
+    have : rb.primary.src = f0.primary.src := by
+      rw [hrb]; show (updPrimary cfg.crcFn _).src = _; unfold updPrimary; split <;> rfl
+    rw [this]; exact hc.src
+  have hdl : cfg.deliver rb.primary.dest = true := by
+    have : rb.primary.dest = f0.primary.dest := by
+      rw [hrb]; show (updPrimary cfg.crcFn _).dest = _; unfold updPrimary; split <;> rfl
+    rw [this]; exact hc.dlv
+  have hfl : isFragment rb.primary.flags = false := by
+    have : rb.primary.flags = clearFragFlag f0.primary.flags := by
+      rw [hrb]; show (updPrimary cfg.crcFn _).flags = _; unfold updPrimary; split <;> rfl
+    rw [this]; exact isFragment_clearFragFlag _
+  have hsub : ∀ x ∈ (s.pending.eraseIdx j).filter (hasKey k), Synth cfg P fr x :=
+    fun x hx => hI.pend x (mem_filter_eraseIdx _ _ _ _ hx)
+  have hcov : covered (fr.map rangeOf) P.length :=
+    hI.early (Or.inl (by intro h; rw [h] at hmem; simp at hmem))
+  by_cases hsn : (proj k s).seen none = true
+  · -- a bundle of `k` was delivered before: this one is dropped as already seen
+    have hstep : proj k (step cfg s (.idle j))
+        = { (proj k s) with pending := (s.pending.eraseIdx j).filter (hasKey k) } := by
+      have hid : identOf (norm rb) = ⟨k, none⟩ := by simp [identOf, hfl, hkey]
+      have hs' : s.seen ⟨k, none⟩ = true := hsn
+      simp only [step, hj]
+      unfold recvBundle
+      simp only [hnum, hcrc, hsrc, norm_primary, hid, hs', Bool.not_true, Bool.false_eq_true, if_false, if_true]
+      rfl
+    rw [hstep]
+    have hdne := hI.seenNone.1 hsn
+    exact ⟨hI.seenFrag, hI.entry, hsub, hI.del, hI.seenNone, fun _ => hcov, fun _ h => absurd h hdne⟩
+  · have hsn' : (proj k s).seen none = false := by simpa using hsn
+    have hdel : (proj k s).delivered = [] := by
+      cases hd : (proj k s).delivered with
+      | nil => rfl
+      | cons a as => exact absurd (hI.seenNone.2 (by rw [hd]; simp)) hsn
+    rw [proj_idle_key cfg s j rb k hj hkey hnum hcrc hsrc hdl hfl hsn']
+    refine ⟨?_, hI.entry, hsub, Or.inr ⟨rb, ⟨f0, hf0m, hf00, hrb⟩, by simp [hdel]⟩, by simp, fun _ => hcov,
+      fun _ h => by simp at h⟩
+    intro x
+    have : ((some x : Option (Nat × Option Nat)) == none) = false := rfl
+    simp only [this, Bool.false_or]
+    exact hI.seenFrag x
 
 theorem run_inv (cfg : RCfg) (k : Key) (P : Bytes) :
-    ∀ (evs : List Ev) (s : AState) (fr : List FBundle), TableWf s.table → Phase P fr (proj k s) →
+    ∀ (evs : List Ev) (s : AState) (fr : List FBundle), TableWf s.table → Inv cfg P fr (proj k s) →
       (∀ b ∈ fr ++ kfrags k evs, ConsFrag cfg k P b) →
-      (∀ b ∈ fr ++ kfrags k evs, ∀ b' ∈ fr ++ kfrags k evs,
-        b.primary.fragOff = b'.primary.fragOff → rangeOf b = rangeOf b') →
-      TableWf (run cfg s evs).table ∧ Phase P (fr ++ kfrags k evs) (proj k (run cfg s evs)) := by
+      TableWf (run cfg s evs).table ∧ Inv cfg P (fr ++ kfrags k evs) (proj k (run cfg s evs)) := by
   intro evs
   induction evs with
-  | nil => intro s fr hw hph _ _; simpa [run, kfrags] using ⟨hw, hph⟩
+  | nil => intro s fr hw hph _; simpa [run, kfrags] using ⟨hw, hph⟩
   | cons ev es ih =>
-    intro s fr hw hph hall hso
+    intro s fr hw hph hall
     have hw' := step_wf cfg s ev hw
-    show TableWf (run cfg (step cfg s ev) es).table ∧ Phase P _ (proj k (run cfg (step cfg s ev) es))
+    show TableWf (run cfg (step cfg s ev) es).table ∧ Inv cfg P _ (proj k (run cfg (step cfg s ev) es))
     cases ev with
     | recv b =>
       by_cases hk : hasKey k b = true
       · have hkf : kfrags k (Ev.recv b :: es) = b :: kfrags k es := by simp [kfrags, hk]
-        rw [hkf] at hall hso ⊢
+        rw [hkf] at hall ⊢
         have happ : fr ++ b :: kfrags k es = (fr ++ [b]) ++ kfrags k es := by simp
-        rw [happ] at hall hso ⊢
+        rw [happ] at hall ⊢
         have hb : ConsFrag cfg k P b := hall b (by simp)
         have hallfr : ∀ b' ∈ fr, ConsFrag cfg k P b' := fun b' h => hall b' (by simp [h])
-        apply ih _ _ hw'
-        · show Phase P (fr ++ [b]) (proj k (recvBundle cfg s b))
-          rw [proj_recv_key cfg s b k hw hb.key hb.nums hb.crc hb.src hb.dlv hb.frag]
-          rcases hph with hA | hB
-          · exact invA_step cfg k P fr _ b hA hb hallfr
-              (fun b' hb' he => hso b' (by simp [hb']) b (by simp) he)
-          · exact Or.inr (invB_step cfg k P fr _ b hB hb)
-        · exact hall
-        · exact hso
+        apply ih _ _ hw' _ hall
+        show Inv cfg P (fr ++ [b]) (proj k (recvBundle cfg s b))
+        rw [proj_recv_key cfg s b k hw hb.key hb.nums hb.crc hb.src hb.dlv hb.frag]
+        exact inv_step cfg k P fr _ b hph hb hallfr
       · have hk' : hasKey k b = false := by simpa using hk
         have hkf : kfrags k (Ev.recv b :: es) = kfrags k es := by simp [kfrags, hk']
-        rw [hkf] at hall hso ⊢
-        apply ih _ _ hw' _ hall hso
+        rw [hkf] at hall ⊢
+        apply ih _ _ hw' _ hall
         rw [step_frame cfg s (.recv b) k hw (by simpa [evKeyIs] using hk')]
         exact hph
     | idle j =>
       have hkf : kfrags k (Ev.idle j :: es) = kfrags k es := rfl
-      rw [hkf] at hall hso ⊢
-      apply ih _ _ hw' _ hall hso
+      rw [hkf] at hall ⊢
+      apply ih _ _ hw' _ hall
       cases hj : s.pending[j]? with
       | none => simpa [step, hj] using hph
       | some rb =>
@@ -783,8 +765,8 @@ theorem exists_num1_of_payload {b : FBundle} {d : Bytes} (h : b.payload = some d
     exact ⟨x, List.mem_of_find?_eq_some hp, by simpa using List.find?_some hp⟩
 
 /-- the reassembled bundle carries exactly the reassembled data as payload -/
-theorem synth_payload (f : FBundle) (d0 P : Bytes) (h : (norm f).payload = some d0) :
-    (norm (synth (norm f) P)).payload = some P := by
+theorem synth_payload (crcFn : Nat → Bytes → Bytes) (f : FBundle) (d0 P : Bytes)
+    (h : (norm f).payload = some d0) : (norm (synth crcFn (norm f) P)).payload = some P := by
   obtain ⟨x, hx, h1⟩ := exists_num1_of_payload h
   unfold FBundle.payload
   simp only [norm, synth, List.map_map]
@@ -814,8 +796,8 @@ theorem filter_map_congr {α β : Type} (p : β → Bool) (h1 h2 : α → β) (b
       simp only [hx', Bool.false_eq_true, if_false, ih']
 
 /-- … and every other block of the offset-0 fragment, unchanged and in order -/
-theorem synth_ext_blocks (f : FBundle) (P : Bytes) :
-    (norm (synth (norm f) P)).blocks.filter (fun x => x.c.blockNum != 1)
+theorem synth_ext_blocks (crcFn : Nat → Bytes → Bytes) (f : FBundle) (P : Bytes) :
+    (norm (synth crcFn (norm f) P)).blocks.filter (fun x => x.c.blockNum != 1)
       = (norm f).blocks.filter (fun x => x.c.blockNum != 1) := by
   simp only [norm, synth, List.map_map]
   apply filter_map_congr
@@ -828,6 +810,7 @@ theorem synth_ext_blocks (f : FBundle) (P : Bytes) :
       simp only [ensure_num] at hx ⊢
       simpa using hx
     simp only [ensure_idem, hne, Bool.false_eq_true, if_false]
+
 
 end Reasm
 end DtnVerif
